@@ -4,6 +4,7 @@ import Proofs.C09Parse
 import Proofs.C09Routing
 import Proofs.C09Names
 import Proofs.C09Placed
+import Proofs.C09Cache
 /-!
 # C09 — partition tokens equal the ones Cassandra computes (property theorems)
 
@@ -39,6 +40,26 @@ theorem C09_random_range (digest : List UInt8) (h : digest.length = 16) :
     0 ≤ Token.randomToken digest ∧ Token.randomToken digest ≤ (2:Int)^127 :=
   Token.randomToken_range digest h
 
+/-- **Random partitioner on the KEY**, every key of every length: with `md5.Sum` = RFC 1321 (Model/MD5.lean, an
+    executable specification tied to crypto/md5 by the differential op `randomk` and checked against the RFC's test
+    suite below), the token is the absolute value of the digest read as a signed 128-bit integer, in 0 … 2^127. -/
+theorem C09_random_of_key (key : List UInt8) :
+    Token.randomTokenOfKey key = Token.Spec.randomToken (MD5.sum key) ∧
+    0 ≤ Token.randomTokenOfKey key ∧ Token.randomTokenOfKey key ≤ (2:Int)^127 := by
+  have h16 : (MD5.sum key).length = 16 := by simp [MD5.sum, MD5.out32, MD5.lenBytes]
+  exact ⟨C09_random _ h16, C09_random_range _ h16⟩
+
+/-- RFC 1321 appendix A.5 test suite ("", "a", "abc", "message digest", and the 80-digit message: two chunks) -/
+example : MD5.sum [] = [0xd4,0x1d,0x8c,0xd9,0x8f,0x00,0xb2,0x04,0xe9,0x80,0x09,0x98,0xec,0xf8,0x42,0x7e] := by decide +kernel
+example : MD5.sum [0x61] = [0x0c,0xc1,0x75,0xb9,0xc0,0xf1,0xb6,0xa8,0x31,0xc3,0x99,0xe2,0x69,0x77,0x26,0x61] := by decide +kernel
+example : MD5.sum [0x61,0x62,0x63] = [0x90,0x01,0x50,0x98,0x3c,0xd2,0x4f,0xb0,0xd6,0x96,0x3f,0x7d,0x28,0xe1,0x7f,0x72] := by decide +kernel
+example : MD5.sum [0x6d,0x65,0x73,0x73,0x61,0x67,0x65,0x20,0x64,0x69,0x67,0x65,0x73,0x74]
+    = [0xf9,0x6b,0x69,0x7d,0x7c,0xb7,0x93,0x8d,0x52,0x5a,0x2f,0x31,0xaa,0xf1,0x61,0xd0] := by decide +kernel
+example : MD5.sum ((List.replicate 8 [0x31,0x32,0x33,0x34,0x35,0x36,0x37,0x38,0x39,0x30]).flatten)
+    = [0x57,0xed,0xf4,0xa2,0x2b,0xe3,0xc9,0x55,0xac,0x49,0xda,0x2e,0x21,0x07,0xb6,0x7a] := by decide +kernel
+/-- a key whose digest is negative as a signed integer ("a": 0x0c… is positive; "abc": 0x90… is negative) -/
+example : Token.randomTokenOfKey [0x61,0x62,0x63] = 148866708576779697295343134153845407886 := by decide +kernel
+
 /-- Order-preserving partitioner: unsigned bytewise lexicographic order is a strict total order and
     equal tokens ↔ equal keys. -/
 theorem C09_ordered :
@@ -71,6 +92,36 @@ theorem C09_parse_roundtrip (i : Int) (hlo : Token.int64Min ≤ i) (hhi : i ≤ 
     Token.parseInt64 (Token.printInt i) = i := Token.parseInt64_printInt i hlo hhi
 
 theorem C09_parse_nat (n : Nat) : Token.parseNat (Token.natDigits n) = some n := Token.parseNat_natDigits n
+
+/-- RandomPartitioner token strings (`big.Int.SetString(s, 10)`): the decimal string of EVERY integer - no size bound:
+    Cassandra's range 0 … 2^127, the minimum token -1, anything beyond a machine word - parses to that integer, so
+    `Less` (`big.Int.Cmp`) on parsed tokens is `<` on the denoted numbers (ops parser, lessr) -/
+theorem C09_parse_big (i j : Int) :
+    Token.parseBig (Token.printInt i) = some i ∧
+    (∀ x y, Token.parseBig (Token.printInt i) = some x → Token.parseBig (Token.printInt j) = some y → (x < y ↔ i < j)) := by
+  refine ⟨Token.parseBig_printInt i, ?_⟩
+  intro x y hx hy
+  rw [Token.parseBig_printInt] at hx hy
+  cases hx; cases hy; exact Iff.rfl
+
+example : Token.parseBig (Token.printInt (-1)) = some (-1) ∧
+    Token.parseBig ['1','7','0','1','4','1','1','8','3','4','6','0','4','6','9','2','3','1','7','3','1','6','8','7','3','0','3','7','1','5','8','8','4','1','0','5','7','2','8']
+      = some (2^127) := by decide
+
+/-- **Which partitioner.** For EVERY package prefix, the class names Cassandra reports select the partitioner whose
+    hash / order the theorems above are about: `…Murmur3Partitioner` ↦ Murmur3, `…RandomPartitioner` ↦ Random,
+    `…ByteOrderedPartitioner` ↦ the order-preserving (bytewise) one; `…OrderPreservingPartitioner` (tokens are strings
+    under a collation, not bytes) is refused (op part; newTokenRing then reports "unsupported partitioner" and the
+    driver routes without tokens). -/
+theorem C09_partitioner_selection (pkg : List Char) :
+    Token.selectPartitioner (pkg ++ Token.nameMurmur3) = some .murmur3 ∧
+    Token.selectPartitioner (pkg ++ Token.nameRandom) = some .random ∧
+    Token.selectPartitioner (pkg ++ 'B' :: 'y' :: 't' :: 'e' :: Token.nameOrdered) = some .ordered ∧
+    Token.selectPartitioner (pkg ++ ['O','r','d','e','r','P','r','e','s','e','r','v','i','n','g','P','a','r','t','i','t','i','o','n','e','r']) = none :=
+  ⟨Token.select_murmur3 pkg, Token.select_random pkg, Token.select_byteOrdered pkg, Token.select_orderPreserving pkg⟩
+
+example : Token.selectPartitioner ['R','a','n','d','o','m','P','a','r','t','i','t','i','o','n','e','r'] = some .random ∧
+    Token.selectPartitioner ['r','a','n','d','o','m','P','a','r','t','i','t','i','o','n','e','r'] = none := by decide
 
 
 /-! ## routing key from the metadata of the prepared statement (session.go routingKeyInfo + createRoutingKey) -/
@@ -484,5 +535,97 @@ example : (Murmur.Placed.place [9] [2, 3] [4] 1).wf ∧ (Murmur.Placed.place [9]
 /-- test vector (labelled as a test): "hello" at offset 3 between foreign bytes -/
 example : (Murmur.Placed.murmur3H1 (Murmur.Placed.place [0xff, 0xff, 0xff] [0x68, 0x65, 0x6c, 0x6c, 0x6f] [0xff, 0xff] 1)).toInt
     = -3758069500696749310 := by decide
+
+/-! ## the routing-key info cache (session.go `routingKeyInfoCache`, an LRU keyed by the statement text) over a HISTORY
+of one session: any number of statements, uses through Query / Batch (explicit keys, binding callbacks, empty batches),
+the connection going away and coming back, `Max(n)`, tables dropped and re-created with another partition key. -/
+
+section cache
+open RoutingCache
+variable {τ ν : Type}
+
+/-- the state after a history -/
+def cacheExec (enc : τ → ν → Routing.Enc) (s : State τ) (steps : List (Step τ ν)) : State τ :=
+  steps.foldl (fun s st => (step enc s st).2) s
+
+/-- FULL STATEMENT (not provable for the unchanged code — KF-C09-2, KF-C09-3, counterexamples below): for EVERY history
+    `run enc s steps = Spec.run enc s.stmts steps`, i.e. every routing key is the one computed from what the server's
+    PREPARE answer and the schema say at that moment (which C09_routing_from_metadata / C09_routing_from_schema equate with
+    the framing of the values at the partition-key markers), whatever the cache holds.
+    PROVED for every history whose steps are all SAFE (`RoutingCache.safe`, decided along the run): no first use of a
+    statement while no connection is available, no change of a statement's key while the cache holds the statement. Any
+    number of statements, any cache size (evictions included), any interleaving of hits, misses, ErrNoMetadata outcomes,
+    unbound key columns, `Max(n)`, explicit keys and binding callbacks. -/
+theorem C09_cache_transparent_partial (enc : τ → ν → Routing.Enc) (s : State τ) (steps : List (Step τ ν))
+    (hc : Coherent s) (hs : safe enc s steps = true) :
+    run enc s steps = Spec.run enc s.stmts steps := run_safe enc steps s hc hs
+
+/-- …in particular from a new session (empty cache), for every cache size -/
+theorem C09_cache_transparent_new_session_partial (enc : τ → ν → Routing.Enc) (stmts : List (Stmt τ)) (max : Nat)
+    (steps : List (Step τ ν)) (hs : safe enc ⟨stmts, true, max, []⟩ steps = true) :
+    run enc ⟨stmts, true, max, []⟩ steps = Spec.run enc stmts steps :=
+  run_safe enc steps _ (by intro p hp; cases hp) hs
+
+/-- …and what that key IS, step by step: from any coherent state (e.g. any state reached by a safe history), a safe use
+    of a statement whose PREPARE answer carries partition-key indexes answers the CompositeType framing (the raw value
+    for one key column) of the encodings of the values AT the key markers, in partition-key order — whether the info
+    came from the cache (hit), was just computed (miss), or an older statement had to be evicted for it. -/
+theorem C09_cache_use_from_metadata (enc : τ → ν → Routing.Enc) (s : State τ) (k : Nat) (vals : List ν)
+    (st : Stmt τ) (cs : List Routing.Bytes) (hc : Coherent s)
+    (hs : safeStep s (.use k vals : Step τ ν) = true) (hst : s.stmts[k]? = some st) (hpk : st.md.pkeys ≠ [])
+    (h : Routing.Spec.components enc st.md.cols vals st.md.pkeys = some cs) :
+    (step enc s (.use k vals)).1 = some (.res (.key (some (Token.routingKey cs)))) ∧
+    Coherent (step enc s (.use k vals)).2 := by
+  obtain ⟨ho, hc', _⟩ := step_safe enc s (.use k vals) hc hs
+  refine ⟨?_, hc'⟩
+  rw [ho]
+  simp only [Spec.stepOut, hst]
+  rw [C09_routing_from_metadata enc st.md st.schema vals cs hpk h]
+
+/-- EVERY history (safe or not) keeps the cache within `MaxEntries` (`MaxRoutingKeyInfo`; 0 = no limit) -/
+theorem C09_cache_bounded (enc : τ → ν → Routing.Enc) (steps : List (Step τ ν)) :
+    ∀ s : State τ, (s.max ≠ 0 → s.lru.length ≤ s.max) →
+      (cacheExec enc s steps).max ≠ 0 → (cacheExec enc s steps).lru.length ≤ (cacheExec enc s steps).max := by
+  induction steps with
+  | nil => intro s h; exact h
+  | cons st rest ih =>
+    intro s h
+    exact ih _ (step_bounded enc s st h)
+
+/-- an explicit routing key wins and a binding callback / an empty batch gives no key, whatever the cache holds -/
+theorem C09_routing_front (enc : τ → ν → Routing.Enc) (s : State τ) (key : Routing.Bytes) (k : Nat) (vals : List ν) :
+    step enc s (.useExplicit key k vals) = (some (.res (.key (some key))), s) ∧
+    step enc s (.useBinding k : Step τ ν) = (some (.res .nokey), s) ∧
+    step enc s (.batchEmpty : Step τ ν) = (some (.res .nokey), s) := ⟨rfl, rfl, rfl⟩
+
+/-- the toy statement `… SET a = ? WHERE b = ?` of table t0 with key marker `i` -/
+def toyStmt (i : Nat) : Stmt Nat := ⟨⟨[⟨"a", 2⟩, ⟨"b", 2⟩], [i], "ks", "t0"⟩, none⟩
+
+/-- non-vacuity: a safe history with a hit, a second statement, an eviction (cache of ONE entry) and a re-computation -/
+example : safe toyEnc ⟨[toyStmt 0, toyStmt 1], true, 1, []⟩
+      [.use 0 [[1], [2]], .use 0 [[3], [4]], .use 1 [[5], [6]], .use 0 [[7], [8]]] = true ∧
+    run toyEnc ⟨[toyStmt 0, toyStmt 1], true, 1, []⟩
+      [.use 0 [[1], [2]], .use 0 [[3], [4]], .use 1 [[5], [6]], .use 0 [[7], [8]]]
+      = [some (.res (.key (some [0, 1]))), some (.res (.key (some [0, 3]))), some (.res (.key (some [0, 6]))),
+         some (.res (.key (some [0, 7])))] := by decide
+
+/-- COUNTEREXAMPLE (KF-C09-3, stale routing info): the statement is used (key marker 0), its table is dropped and
+    re-created with the OTHER column as partition key (the server now names key marker 1), the statement is used again:
+    the key is still built from marker 0. Replayed on the real code by the rkcx op of props/C09.findings.json. -/
+theorem C09_cex_cache_stale :
+    run toyEnc ⟨[toyStmt 0], true, 0, []⟩ [.use 0 [[1], [2]], .change 0 (toyStmt 1), .use 0 [[1], [2]]]
+      = [some (.res (.key (some [0, 1]))), none, some (.res (.key (some [0, 1])))] ∧
+    Spec.run toyEnc [toyStmt 0] [.use 0 [[1], [2]], .change 0 (toyStmt 1), .use 0 [[1], [2]]]
+      = [some (.res (.key (some [0, 1]))), none, some (.res (.key (some [0, 2])))] := by decide
+
+/-- COUNTEREXAMPLE (KF-C09-2, the "no connection available" error is cached): a first use of a statement while the
+    host is down, the host comes back, every later use still fails — the statement is never routed by token again. -/
+theorem C09_cex_cache_noconn :
+    run toyEnc ⟨[toyStmt 0], true, 0, []⟩ [.down, .use 0 [[1], [2]], .up, .use 0 [[1], [2]], .use 0 [[3], [4]]]
+      = [none, some .errNoConn, none, some .errNoConn, some .errNoConn] ∧
+    Spec.run toyEnc [toyStmt 0] [.up, .use 0 [[1], [2]], .use 0 [[3], [4]]]
+      = [none, some (.res (.key (some [0, 1]))), some (.res (.key (some [0, 3])))] := by decide
+
+end cache
 
 end C09
